@@ -91,6 +91,26 @@ class Session:
         self.events.append({"ev": "Header", "N": self.lib.N, "lnp": lnp, "th": [self.lib.row_hash(i) for i in range(1, self.lib.N + 1)],
                             "ref": tokens.ord_tokens(self.ref)})
 
+    def rewrite_library(self, variant):
+        """overwrite the user's library file (same path) with the same physical samples in other units; the reference
+        values are recomputed from what the new file holds (a new Header event)"""
+        import astropy.units as u
+        from thejoker import JokerSamples
+        old = self.lib.samples
+        uu = {"yr_deg": (u.yr, u.deg, u.m / u.s), "h_rad": (u.h, u.rad, u.km / u.s), "d_deg": (u.day, u.deg, u.cm / u.s),
+              "d_rad": (u.day, u.rad, u.km / u.s)}[variant]
+        s2 = JokerSamples()
+        s2["P"] = old["P"].to(uu[0]); s2["e"] = old["e"]; s2["omega"] = old["omega"].to(uu[1]); s2["M0"] = old["M0"].to(uu[1])
+        s2["s"] = old["s"].to(uu[2])
+        if "ln_prior" in old.par_names:
+            s2["ln_prior"] = old["ln_prior"]
+        path = self.libfile()
+        s2.write(path, overwrite=True)
+        back = JokerSamples.read(path)
+        self.lib = fixture.Library.from_samples(back, data_unit=self.data.rv.unit.to_string())
+        self.rec.decode = self.lib.decode
+        self.header()
+
     def reseed(self, seed=None):
         """same generator object, stream restarted (for twin runs with equal seeds)"""
         self.gen.bit_generator.state = np.random.PCG64(self.seed if seed is None else seed).state
